@@ -418,6 +418,8 @@ def r03_7(ctx) -> None:
 
 
 def run(ctx) -> None:
+    from .common import forwarding_discipline
+    ctx.guard(forwarding_discipline, "R03.9", ['payload', 'members', 'member', 'private_key', 'protected', 'find_key'], 19)  # arguments are handed on under their own name (generic routing rule, rules/common.py)
     # key given as a key set: the algorithm -> key-type table covers every registered algorithm (C14), and every admissible header is
     # judged by a per-instance registry (C15)
     from .c14 import r14_3
